@@ -27,6 +27,9 @@ def replstream_oracle(script, impl):
             probs.append('lagging: healthy stream %s was not sent the whole log: %s' % (ws[1], out[:120]))
         elif ws[0] == 'listed' and out.strip() != 'listed 1':
             probs.append('unlisted: healthy stream %s is not in the topology / its session is unknown to the primary' % ws[1])
+        elif ws[0] == 'topo' and out.strip() != 'topo ' + ws[2]:
+            probs.append('topology: stream %s %s by the primary (GetReplicaInfo), expected %s: %s' % (
+                ws[1], 'is reported as connected' if ws[2] == '0' else 'is missing from the topology reported', ws[2], out[:60]))
         elif ws[0] == 'acks':
             f = kv(out)
             if f.get('refused', 0) != 0 or f.get('accepted', 0) == 0:
